@@ -148,14 +148,25 @@ class Exec:
 
     def run(self):
         h, W = self.h, self.W
+        alpha = W.sampled_exponent(h["stream"], h["seed"])
         self.params, self.msk = W.setup(h["l"], h["sigs"], h["stream"], h["seed"])
         expect(W.d.vf_wk_params_guard(self.params) == 0, "setup/overrun", "setup wrote beyond params.h[l]")
         self.pv = W.params_view(self.params)
         self.check_setup()
+        if self.level >= 1:
+            # the master exponent is the value drawn from the caller's random source: g1 = g^alpha, msk = g2^alpha
+            expect(W.g2_eq(self.pv["g1"], W.g2_mul(self.pv["g"], alpha)), "setup/randomiser", "params.g1 != g^alpha for the alpha drawn first from the random source")
+            expect(W.g1_eq(W.blob_bytes(self.msk, 1)[:W.g1sz], W.g1_mul(self.pv["g2"], alpha)), "setup/randomiser", "master key != g2^alpha for the alpha drawn first from the random source")
         root = [FREE] * h["l"]
         for si, s in enumerate(h["steps"]):
             op = s["op"]
-            self.lib.set_random(s["stream"], s["seed"])
+            # the exponent a randomised step draws first from its stream (the random source is left re-armed with the same stream)
+            self.drawn = W.sampled_exponent(s["stream"], s["seed"])
+            self.parent_a1 = None
+            if op in ("qualify",):
+                self.parent_a1 = W.sk_view(self.keys[s["parent"]]["h"], max_slots=0)["a1"]
+            elif op == "resample":
+                self.parent_a1 = W.sk_view(self.keys[s["key"]]["h"], max_slots=0)["a1"]
             if op in ("keygen", "nd_keygen"):
                 attrs = Attrs(s["attrs"], s["omit_all"])
                 sk = W.keygen(self.params, self.msk, attrs, h["l"] - len(attrs), nondelegable=(op == "nd_keygen"))
@@ -243,10 +254,24 @@ class Exec:
                 expect(W.pairing(v["bsig"], pv["g"]) == W.pairing(pv["hsig"], v["a1"]), "%s/bsig-equation" % opname, what)
             else:
                 expect(conv.b_g1_proj(v["bsig"]) is None, "%s/bsig-without-signatures" % opname, what)
+        # (iii') the key is randomised by exactly the exponent drawn from the caller's random source: a1 = [parent a1 +] g^t.
+        # Together with (ii) and (iii) this fixes every component; a key whose randomiser is missing, constant, truncated or taken
+        # from uninitialised memory satisfies the equations above but not this one.
+        if self.level >= 1 and opname in ("keygen", "qualifykey", "resamplekey"):
+            exp_a1 = W.g2_mul(pv["g"], self.drawn)
+            if self.parent_a1 is not None:
+                exp_a1 = W.g2_add(exp_a1, self.parent_a1)
+            expect(W.g2_eq(v["a1"], exp_a1), "%s/randomiser" % opname, lambda: "a1 is not [parent a1 +] g^t for the t drawn first from the random source (t=%x): %s" % (self.drawn, what()))
+            self.ctx.event("randomiser-exact/" + opname)
         # (iv) decryption of a fresh ciphertext for exactly this pattern
         msg = conv.fq12_b(F.flat_to_tower(PR.gt_pow_gen(step["seed"] + 7)))
-        self.lib.set_random(step["stream"][::-1], step["seed"] ^ 0x55)
+        s_enc = W.sampled_exponent(step["stream"][::-1], step["seed"] ^ 0x55)
         ct = W.encrypt(msg, self.params, Attrs(fixed_of(pat)))
+        if self.level >= 1:
+            # the ciphertext is bound to exactly the exponent drawn from the caller's random source: B = g^s, C = (g3 prod h^v)^s
+            cimg = W.blob_bytes(ct, 3)
+            expect(W.g2_eq(cimg[576:576 + W.g2sz], W.g2_mul(pv["g"], s_enc)), "encrypt/randomiser", lambda: "ciphertext.b != g^s for the s drawn first from the random source: %s" % what())
+            expect(W.g1_eq(cimg[576 + W.g2sz:576 + W.g2sz + W.g1sz], W.g1_mul(prod, s_enc)), "encrypt/randomiser", lambda: "ciphertext.c != (g3*prod h^v)^s for the s drawn first from the random source: %s" % what())
         expect(W.decrypt(ct, sk=k["h"]) == msg, "%s%s/decrypt" % (opname, tag), lambda: "key does not decrypt a ciphertext for its own pattern: %s" % what())
         expect(W.decrypt(ct, msk=self.msk) == msg, "decrypt_master/value", what)
         k["view"] = v
